@@ -16,7 +16,11 @@ GROUPS["reader_step"] = {
     "prefix": "deferred_reader::verif_reader::",
     "overlay": [("flussab/src/deferred_reader.rs", "reader", "harness/flussab/reader_step.rs")],
     "inject": [("flussab/src/deferred_reader.rs", r"pub fn request_more\(&mut self\) -> bool \{\n",
-                "        #[cfg(kani)]\n        if unsafe { verif_reader::USE_CONTRACT } {\n            return self.request_more_contract();\n        }\n")],
+                "        #[cfg(kani)]\n        if unsafe { verif_reader::USE_CONTRACT } {\n            return self.request_more_contract();\n        }\n"),
+               ("flussab/src/deferred_reader.rs", r"fn advance_cold\(&self\) -> ! \{\n",
+                "        #[cfg(kani)]\n        verif_reader::panic_point(self);\n"),
+               ("flussab/src/deferred_reader.rs", r"Ok\(n\) => \{\n(?=(\s*//.*\n)*\s*assert!\(\s*n\b)",
+                "                    #[cfg(kani)]\n                    verif_reader::pre_read_assert(self);\n")],
     "params_crates": ["flussab"],
     "params": {
         "quick": {"CAP": 6, "MAXCHUNK": 2, "MAXREQ": 3, "SCAP": 12},
@@ -37,9 +41,68 @@ GROUPS["reader_step"] = {
         ("step_advance_unchecked", {"props": ["C02", "C14"], "cost": 2, "what": "advance_unchecked within its contract"}),
         ("step_marks_and_config", {"props": ["C02"], "cost": 2, "what": "set_mark / set_mark_to_position / set_chunk_size / check_io_error / io_error / buf_ptr"}),
         ("step_mark_survives_advance_and_refill", {"props": ["C02", "C08", "C01"], "cost": 9, "what": "mark set, advance, refill (with realign): mark still designates the same offset"}),
+        ("panic_advance_past_end", {"props": ["C14"], "cost": 2, "must_fail_with": ["advanced past the current buffer size"],
+                                    "what": "advance(n > buffered): memory-safety invariant holds at the point of the documented panic"}),
+        ("panic_advance_with_buf_past_end", {"props": ["C14"], "cost": 2, "must_fail_with": ["advanced past the current buffer size"],
+                                             "what": "advance_with_buf(n > buffered): invariant at the panic; no slice is handed out"}),
+        ("step_request_more_overlong_source", {"props": ["C14"], "cost": 9, "must_fail_with": ["invariant of std::io::Read trait violated"],
+                                               "what": "a source claiming more bytes than its slice: rejected by the load-bearing assert before any state is updated"}),
         ("base_from_read", {"props": ["C02"], "cost": 1, "what": "from_read establishes Inv"}),
         ("reach_request_more", {"props": ["C02", "C09", "C10", "C14"], "kind": "reach", "cost": 8, "what": "vacuity twin"}),
     ],
+}
+
+_WRITER_COMMON = {
+    "package": "flussab",
+    "prefix": "deferred_writer::verif_writer::",
+    "overlay": [("flussab/src/deferred_writer.rs", "writer", "harness/flussab/writer_step.rs")],
+    "params_crates": ["flussab"],
+    "timeout": {"quick": 1500, "thorough": 5400},
+}
+GROUPS["writer_step"] = dict(_WRITER_COMMON, **{
+    "name": "writer_step",
+    "params": {"quick": {"WCAP": 4, "MAXS": 9}, "thorough": {"WCAP": 6, "MAXS": 19}},
+    "flags": ["--default-unwind", "5"],
+    "harnesses": [
+        ("step_write_all_defer_err_ok_sink", {"cost": 5, "what": "write_all_defer_err(slice of 0..MAXS bytes) from any Inv-state, accept-all sink: fast path, fill+flush+buffer, flush+write-through"}),
+        ("step_write_trait_methods_ok_sink", {"cost": 5, "what": "Write::write / Write::write_all return Ok(len)/Ok(())"}),
+        ("step_flush_ok_sink", {"cost": 2, "what": "flush / flush_defer_err deliver exactly the buffered bytes once"}),
+        ("step_drop_ok_sink", {"cost": 2, "what": "drop flushes"}),
+        ("step_buf_write_ptr_ok_sink", {"cost": 2, "props": ["C11", "C14"], "what": "buf_write_ptr(n) non-null only if n bytes fit; advance_unchecked(m<=n)"}),
+        ("step_check_io_error_ok_sink", {"cost": 1, "what": "check_io_error without error"}),
+        ("step_write_short_and_interrupted_sink", {"cost": 6, "what": "sink with one short write and one Interrupted"}),
+        ("step_flush_short_and_interrupted_sink", {"cost": 3, "what": "flush with short write / Interrupted"}),
+        ("step_write_failing_sink", {"cost": 6, "what": "sink may fail at any call; error parked or not in the pre-state"}),
+        ("step_flush_failing_sink", {"cost": 3, "what": "flush reports the error exactly once"}),
+        ("step_check_io_error_failing_sink", {"cost": 1, "what": "check_io_error reports and clears"}),
+        ("step_drop_failing_sink", {"cost": 2, "what": "drop with failing sink"}),
+        ("reach_write_through", {"kind": "reach", "cost": 5, "what": "vacuity twin"}),
+    ],
+})
+GROUPS["writer_digits"] = dict(_WRITER_COMMON, **{
+    "name": "writer_digits",
+    "params": {"quick": {"WCAP": 12, "MAXS": 2}, "thorough": {"WCAP": 12, "MAXS": 2}},
+    "flags": ["--default-unwind", "7"],
+    "harnesses": [
+        ("digits_i8", {"cost": 3, "what": "text::ascii_digits::<i8> all values: canonical decimal text"}),
+        ("digits_u8", {"cost": 3, "what": "u8"}),
+        ("digits_i16", {"cost": 4, "tiers": T, "what": "i16"}),
+        ("digits_u16", {"cost": 4, "tiers": T, "what": "u16"}),
+        ("digits_i32", {"cost": 8, "tiers": T, "flags": ["--default-unwind", "12"], "what": "i32"}),
+        ("digits_u32", {"cost": 8, "tiers": T, "flags": ["--default-unwind", "12"], "what": "u32"}),
+    ],
+})
+
+PROPERTIES["C11"] = {
+    "level": "model_checking",
+    "groups": ["writer_step", "writer_digits"],
+    "claim": "Bounded model checking (SAT) of one inductive step per operation of the real DeferredWriter from an arbitrary invariant-satisfying state (buffer content and fill level, parked error or not) against nondeterministic sink stubs; a symbolic witness stream position proves in-order, exactly-once delivery for every position at once; integer formatting is checked for all values of the 8/16(/32)-bit types.",
+    "level_note": "Buffer capacity is WCAP (the real constant is 16 KiB; the code is capacity-generic, the harness builds the struct with a small capacity); slices up to MAXS >= 2*WCAP+1 bytes; sinks: accept-all, one short write + one Interrupted, failing at an arbitrary call. 64/128-bit itoap formatting is outside (external crate, not finished within caps). Trusted: Kani/CBMC/cadical.",
+    "functions": ["DeferredWriter::{write_all_defer_err, write_all_defer_err_cold, flush_defer_err, buf_write_ptr, advance_unchecked, check_io_error, Write::write, Write::write_all, Write::flush, Drop::drop}", "flussab::write::text::{ascii_digits, ascii_digits_cold}", "itoap::{write_to_ptr, write} (as compiled)"],
+    "explanation": "Step induction on the real writer: Inv = (base + buf.len() == written, the buffer holds the most recently written bytes, a byte already seen by the sink lies below the buffer, with a never-failing sink every byte below the buffer has been seen). Each operation is run once with arbitrary arguments; the sink stub checks the byte arriving as stream offset W and that it arrives once; with a failing sink: writes return Ok, the error is reported exactly once by the next flush/check_io_error, the sink is not called while an error is parked.",
+    "bounds_note": "capacity WCAP, slice length <= MAXS, at most one Interrupted and one short write per operation",
+    "outside": ["sink panics (the `panicked` flag)", "64/128-bit integer formatting", "capacities other than WCAP (code is generic in the capacity)"],
+    "assumptions": ["Write stub honours the Write contract (accepts 1..=len bytes or fails)"],
 }
 
 PROPERTIES["C02"] = {
@@ -54,6 +117,17 @@ PROPERTIES["C02"] = {
     "assumptions": ["Read stub returns 1..=min(remaining, slice) bytes, Ok(0) only at the real end, Interrupted at most twice per call, or a terminal error", "representation invariant Inv as stated in DESIGN.md C02"],
 }
 
+PROPERTIES["C14"] = {
+    "level": "model_checking",
+    "groups": ["reader_step", "writer_step"],
+    "claim": "Bounded model checking of the real unsafe reader/writer code with CBMC's pointer, bounds and validity checks enabled, from arbitrary invariant-satisfying states (so call histories are covered by induction); the state is additionally checked AT the point where each documented panic diverges, which is what a caller observes after catch_unwind.",
+    "level_note": "Panic paths cannot be continued in Kani, so 'after a caught panic' is encoded as 'the memory-safety invariant holds at the panic point' via cfg(kani) hooks injected into the scratch copy; bounds as for C02/C11; AddressSanitizer runs are outside this technique.",
+    "functions": ["DeferredReader::{advance, advance_cold, advance_with_buf, request_more (load-bearing assert), buf, buf_ptr, request_byte_at_offset}"],
+    "explanation": "Every get_unchecked/raw pointer access in the reader is a CBMC verification condition in the step harnesses; the panic-point harnesses assert pos_in_buf+valid_len <= buf.len() and 'no byte exposed that the source never delivered' where advance()/advance_with_buf() panic and where the Read-contract assert fires for a source that claims more bytes than its slice.",
+    "bounds_note": "as C02",
+    "outside": ["unwinding through foreign frames", "sanitizer runs"],
+    "assumptions": ["as C02"],
+}
 
 NOT_APPLICABLE = {
     "C12": "AIG renumbering is one explicit-stack DFS over std HashMaps with no smaller unit; Kani does not finish symbolic execution even for a 1-gate circuit (>15 min, see DESIGN.md section 1 and C12); a MIR executor is out of reach of this task. Not switching technique.",
